@@ -34,8 +34,10 @@ Definition robust (script : list resp) (tail : resp) (e timeout : Z) : bool :=
 
 (* S: the decidable specification on the implementation's own outcome, independent of [wait]:
    an acknowledgement must come from an exact 200 answer that no earlier answer preceded with the
-   same version; a failure must not have skipped a matching answer that was requested at least
-   40 ms before the deadline. *)
+   same version, and that answer must have been REQUESTED before the deadline (the scripted latencies are
+   lower bounds of the real ones, so the model clock never runs ahead of the real one; 60 ms of slack): a
+   version that shows up only after the configured time is a failed reload, however few polls it took;
+   a failure must not have skipped a matching answer that was requested at least 40 ms before the deadline. *)
 Definition is_match (e : Z) (r : resp) : bool :=
   match classify r with Some v => v =? e | None => false end.
 
@@ -51,7 +53,7 @@ Definition spec_ok (script : list resp) (tail : resp) (e timeout : Z) (obs_ok : 
   if obs_ok then
     (0 <=? obs_idx) && is_match e (s (Z.to_nat obs_idx)) &&
     match first_match e s 0 horizon with
-    | Some k => Z.of_nat k =? obs_idx
+    | Some k => (Z.of_nat k =? obs_idx) && (start_time s 0 k <? timeout + 60)
     | None => false
     end
   else
